@@ -1,7 +1,7 @@
 use core::panic;
 use std::vec;
 
-use laythe_core::{object::Class, utils::IdEmitter, value::Value, ObjRef};
+use laythe_core::{managed::Trace, object::Class, utils::IdEmitter, value::Value, ObjRef};
 
 /// The cache for property access and setting
 #[derive(Clone, Debug)]
@@ -134,6 +134,33 @@ impl InlineCache {
   fn set_invoke(&mut self, inline_slot: usize, value: Option<InvokeCache>) {
     debug_assert!(inline_slot < self.invoke.len());
     unsafe { *self.invoke.get_unchecked_mut(inline_slot) = value };
+  }
+}
+
+/// The classes and methods remembered by the cache are compared by address, they
+/// have to stay alive for as long as an entry refers to them. Otherwise a class
+/// created later can be allocated at the address of a collected one and hit its entry
+impl Trace for InlineCache {
+  fn trace(&self) {
+    for cache in self.property.iter().flatten() {
+      cache.class.trace();
+    }
+
+    for cache in self.invoke.iter().flatten() {
+      cache.class.trace();
+      cache.method.trace();
+    }
+  }
+
+  fn trace_debug(&self, log: &mut dyn std::io::Write) {
+    for cache in self.property.iter().flatten() {
+      cache.class.trace_debug(log);
+    }
+
+    for cache in self.invoke.iter().flatten() {
+      cache.class.trace_debug(log);
+      cache.method.trace_debug(log);
+    }
   }
 }
 
